@@ -5,6 +5,8 @@ import (
 
 	"fmt"
 	"github.com/xjslang/xjs/ast"
+	"github.com/xjslang/xjs/parser"
+	"github.com/xjslang/xjs/token"
 	"os"
 	"strings"
 	"unicode/utf16"
@@ -22,6 +24,7 @@ import (
 type c08Payload struct {
 	Src string `json:"src"`
 	Cfg int    `json:"cfg"`
+	Sep int    `json:"plugin_sep,omitempty"` // 1 + index of the separator a plugin node writes (0: no plugin)
 }
 
 var c08Cfgs = func() []Cfg {
@@ -112,7 +115,58 @@ func sameLexeme(a, b *ref.RTok) bool {
 }
 
 func c08Check(src string, cfg Cfg) (kind, detail string, nseg int, accepted bool) {
-	o := parseMode(src, Mode{})
+	return c08CheckTree(parseMode(src, Mode{}), src, cfg)
+}
+
+// c08Wrap is a plugin expression node: it writes its operand in parentheses, followed by a separator that
+// goes through one of the writer's public methods (the position tracker has to follow each of them).
+type c08Wrap struct {
+	E   ast.Expression
+	Sep int
+}
+
+var c08SepNames = []string{"WriteRune('\\n')", "WriteString(\"\\n\")", "WriteNewline()", "WriteRune(' ')", "WriteString(\"  \")", "WriteSpace()", "WriteString(\"\\n\\n  \")", "nothing"}
+
+func (n *c08Wrap) WriteTo(cw *ast.CodeWriter) {
+	cw.WriteRune('(')
+	n.E.WriteTo(cw)
+	switch n.Sep {
+	case 0:
+		cw.WriteRune('\n')
+	case 1:
+		cw.WriteString("\n")
+	case 2:
+		cw.WriteNewline()
+	case 3:
+		cw.WriteRune(' ')
+	case 4:
+		cw.WriteString("  ")
+	case 5:
+		cw.WriteSpace()
+	case 6:
+		cw.WriteString("\n\n  ")
+	}
+	cw.WriteRune(')')
+}
+func (n *c08Wrap) Precedence() int { return ast.PrecedenceAtomic }
+
+// c08PluginPB: an expression interceptor wraps every operand that starts with the identifier h.
+func c08PluginPB(sep int) *parser.Builder {
+	pb := newPB(Mode{})
+	pb.UseExpressionInterceptor(func(p *parser.Parser, next func() ast.Expression) ast.Expression {
+		hit := p.CurrentToken.Type == token.IDENT && p.CurrentToken.Literal == "h"
+		e := next()
+		if hit && !isNilNode(e) {
+			return &c08Wrap{E: e, Sep: sep}
+		}
+		return e
+	})
+	return pb
+}
+
+var c08PluginSrcs = []string{"x = h + 1;\ny = f(h, b)\nz = h", "let q = h\nlet r = [h, 2, h.p]\nprint(q, r)", "function g(h) {\n  if (h) { return h * 2 }\n  return [h]\n}\ng(h)", "h"}
+
+func c08CheckTree(o ParseOut, src string, cfg Cfg) (kind, detail string, nseg int, accepted bool) {
 	if o.Panic != "" || o.Err != nil {
 		return "", "", 0, false
 	}
@@ -276,7 +330,7 @@ func c08Run(c *core.Ctx) {
 		if k == "" || !c.ShrinkOK(k) {
 			return
 		}
-		pl, _ := json.Marshal(c08Payload{src, ci})
+		pl, _ := json.Marshal(c08Payload{Src: src, Cfg: ci})
 		cls := "compact"
 		if c08Cfgs[ci].Pretty {
 			cls = "pretty"
@@ -310,6 +364,32 @@ func c08Run(c *core.Ctx) {
 				}
 			}
 			report(k, d, src, ci, size)
+		}
+	}
+	// (0) plugin nodes that write through each public method of the code writer
+	for sep := range c08SepNames {
+		for si, src := range c08PluginSrcs {
+			if !c.Mine(int64(sep*16+si)) || c.Tick() {
+				continue
+			}
+			c.Cur(src)
+			for _, ci := range cfgIdx {
+				c.Inc("plugin_node_maps")
+				k, d, n, acc := c08CheckTree(parseWith(c08PluginPB(sep), src), src, c08Cfgs[ci])
+				if !acc {
+					continue
+				}
+				c.Inc("maps_checked")
+				c.Count("segments_checked", int64(n))
+				if k != "" && c.ShrinkOK("plugin"+k) {
+					pl, _ := json.Marshal(c08Payload{Src: src, Cfg: ci, Sep: sep + 1})
+					cls := "compact"
+					if c08Cfgs[ci].Pretty {
+						cls = "pretty"
+					}
+					c.Violate(core.Violation{Kind: k, Config: cls + ", plugin node writing " + c08SepNames[sep], Case: fmt.Sprintf("%q", src), Detail: d, Payload: pl, Size: 30})
+				}
+			}
 		}
 	}
 	// (1) all token sequences <= n in space and LF layouts
@@ -430,6 +510,13 @@ func c08Replay(pl json.RawMessage) (string, []core.Violation) {
 	var p c08Payload
 	json.Unmarshal(pl, &p)
 	out := fmt.Sprintf("source %q configuration %s", p.Src, c08Cfgs[p.Cfg])
+	if p.Sep > 0 {
+		out += ", plugin node writing " + c08SepNames[p.Sep-1]
+		if k, d, _, _ := c08CheckTree(parseWith(c08PluginPB(p.Sep-1), p.Src), p.Src, c08Cfgs[p.Cfg]); k != "" {
+			return out, []core.Violation{{Kind: k, Config: c08Cfgs[p.Cfg].String(), Case: fmt.Sprintf("%q", p.Src), Detail: d}}
+		}
+		return out, nil
+	}
 	if k, d, _, _ := c08Check(p.Src, c08Cfgs[p.Cfg]); k != "" {
 		return out, []core.Violation{{Kind: k, Config: c08Cfgs[p.Cfg].String(), Case: fmt.Sprintf("%q", p.Src), Detail: d}}
 	}
@@ -439,7 +526,7 @@ func c08Replay(pl json.RawMessage) (string, []core.Violation) {
 func init() {
 	core.Register(&core.PropSpec{
 		ID: "C08", Level: "exploration",
-		Rule:     "every accepted program of the universes (ALL token sequences <= n, n=4 quick / 5 thorough, in space and LF layouts; the statement families in every layout with <= k deviations over gaps {LF, none, comment, blank line, LF+indent, tab} and dropped semicolons; every expression chain <= depth 2 on one line and one token per line; multi-line, re-quoted and non-ASCII literals followed by more tokens) is compiled with a source map in compact mode and in 4 (quick) / all 21 (thorough) pretty option sets; the mappings are decoded by the independent decoder; for EVERY segment the independent tokenizer must find a token starting exactly at the generated position in Code and one starting exactly at the source position in the source, of the same kind and lexeme (string/template literals: same kind); segments are ordered by generated position; a segment at an identifier carries that identifier as name, every identifier token of Code is covered by such a segment, name indices are in range and names unique. A column is accepted if it is right in UTF-16 units or in bytes. non-trivial = maps of multi-line sources Added: generated code is split into lines as the source-map builder is specified to (LF, CRLF, lone CR); CRLF and CRLF+comment gaps; 8 program prefixes (blank lines, comments, CRLF before the first statement); compiler reuse (a compiler that compiled three other programs before - one of them ending in blank lines and a comment - must emit the same code, mappings and names); the scale family (long lines: three-digit VLQ deltas; hundreds of names and lines).",
+		Rule:     "every accepted program of the universes (ALL token sequences <= n, n=4 quick / 5 thorough, in space and LF layouts; the statement families in every layout with <= k deviations over gaps {LF, none, comment, blank line, LF+indent, tab} and dropped semicolons; every expression chain <= depth 2 on one line and one token per line; multi-line, re-quoted and non-ASCII literals followed by more tokens) is compiled with a source map in compact mode and in 4 (quick) / all 21 (thorough) pretty option sets; the mappings are decoded by the independent decoder; for EVERY segment the independent tokenizer must find a token starting exactly at the generated position in Code and one starting exactly at the source position in the source, of the same kind and lexeme (string/template literals: same kind); segments are ordered by generated position; a segment at an identifier carries that identifier as name, every identifier token of Code is covered by such a segment, name indices are in range and names unique. A column is accepted if it is right in UTF-16 units or in bytes. non-trivial = maps of multi-line sources Added: generated code is split into lines as the source-map builder is specified to (LF, CRLF, lone CR); CRLF and CRLF+comment gaps; 8 program prefixes (blank lines, comments, CRLF before the first statement); compiler reuse (a compiler that compiled three other programs before - one of them ending in blank lines and a comment - must emit the same code, mappings and names); the scale family (long lines: three-digit VLQ deltas; hundreds of names and lines); plugin expression nodes that write a separator through each public writer method (WriteRune / WriteString with and without line breaks, WriteNewline, WriteSpace) around operands of 4 programs.",
 		Assume:   []string{"columns: UTF-16 code units or bytes are both accepted (identical for ASCII)", "string literals are compared by kind only (quote style and escaping may change)"},
 		QuickSec: 300, ThorSec: 2400, Run: c08Run, Replay: c08Replay,
 		Evals: "maps_checked", Nontriv: "maps_of_multiline_sources",
